@@ -245,6 +245,26 @@ theorem compStep_sim (cfg : BruteForceConfig) (hB : 0 < cfg.BanDuration) (t : Na
     · split <;> simpa using hp
     · have := RBan_cleanup hb
       split <;> simpa using this
+  | cleanFr =>
+    simp only [compStep, ledgerStep]
+    refine ⟨⟨?_, ?_, ?_⟩, by trivial⟩
+    · have := RFr_cleanup cfg t hf
+      split <;> simp_all
+    · split <;> simpa using hp
+    · split <;> simpa using hb
+  | cleanBan =>
+    simp only [compStep, ledgerStep]
+    exact ⟨⟨hf, hp, RBan_cleanup hb⟩, by trivial⟩
+  | sweepScan =>
+    simp only [compStep, ledgerStep]
+    exact ⟨⟨hf, hp, hb⟩, by trivial⟩
+  | sweepDelete =>
+    simp only [compStep, ledgerStep]
+    refine ⟨⟨hf, hp, ?_⟩, by trivial⟩
+    show RBan cfg.BanDuration t (if c.marked then cleanupBan t c.ban else c.ban) l.perm l.till
+    split
+    · exact RBan_cleanup hb
+    · exact hb
 
 theorem step_sim (cfg : BruteForceConfig) (hB : 0 < cfg.BanDuration) (t : Nat) (e : Ev) {st : State} {ls : Ledgers}
     (hr : ∀ a, RComp cfg t (st a) (ls a)) :
